@@ -207,6 +207,8 @@ type SPConf struct {
 	MaxSize                int64    `json:"max_size,omitempty"`
 	AllowMissingAttributes bool     `json:"allow_missing_attributes,omitempty"`
 	NilClock               bool     `json:"nil_clock,omitempty"`
+	// EncCertState replaces the certificate bytes of the field key store: "empty", "garbage", "nocert"
+	EncCertState string `json:"enc_cert_state,omitempty"`
 }
 
 // Build returns a fresh service provider for the configuration.
@@ -230,6 +232,22 @@ func (c SPConf) Build() *saml2.SAMLServiceProvider {
 		sp.SPKeyStore = nil
 	default:
 		sp.SPKeyStore = TLSKeyStore(c.EncField)
+	}
+	if c.EncCertState != "" {
+		k := c.EncField
+		if k == "" {
+			k = "KS"
+		}
+		var chain [][]byte
+		switch c.EncCertState {
+		case "empty":
+			chain = [][]byte{{}}
+		case "garbage":
+			chain = [][]byte{[]byte("this is not a DER certificate")}
+		case "nocert":
+			chain = nil
+		}
+		sp.SPKeyStore = dsig.TLSCertKeyStore(tls.Certificate{Certificate: chain, PrivateKey: RSAKey(k)})
 	}
 	if c.EncSetter != "" {
 		if err := sp.SetSPKeyStore(SetterKeyStore(c.EncSetter)); err != nil {
